@@ -1,5 +1,6 @@
 """Per-property configuration for check.py: level, rule text, evaluation keys, observation minimum,
 offline checker, assumptions; and the texts that go into MANIFEST.json."""
+import glob
 import json
 import os
 
@@ -67,6 +68,64 @@ def _c02_pregen(outdir, tier, seed):
 def _c02_py(files, tier, seed, out):
     from oracle import check_c02
     return check_c02.check(files, "C02")
+
+
+def _c14_miri(tier, seed, outdir, harness, target):
+    """Supplementary (thorough only): a handful of C14 items re-executed under Miri with interpreter-sized budgets
+    (FV_TINY). Only an `Undefined Behavior` report counts; unsupported operations, timeouts or a missing Miri are
+    recorded in the evidence and never affect the verdict."""
+    import re
+    import subprocess
+    import time
+    if tier != "thorough":
+        return [], {"miri": "thorough tier only"}
+    # item numbers are positions in C14's deterministic item list: 1 + 8*type + chunk (thorough has 8 chunks per type)
+    picks = [("ed25519", 1 + 8 * 0), ("ed25519", 1 + 8 * 5), ("ed25519", 1 + 8 * 15), ("ed25519", 1 + 8 * 19), ("ed25519", 1 + 8 * 20),
+             ("p256", 1 + 8 * 2), ("p256", 1 + 8 * 17), ("secp256k1-tr", 1 + 8 * 5), ("ristretto255", 1 + 8 * 18), ("ed448", 1 + 8 * 3),
+             ("ed25519", 1 + 8 * 24), ("secp256k1", 1 + 8 * 24 + 6 * 2)]
+    env = dict(os.environ)
+    env.update({"MIRIFLAGS": "-Zmiri-disable-isolation", "FV_TINY": "1", "CARGO_TARGET_DIR": os.path.join(target, "miri"), "CARGO_NET_OFFLINE": "true"})
+    mdir = os.path.join(outdir, "miri")
+    os.makedirs(mdir, exist_ok=True)
+    b = subprocess.run(["cargo", "+nightly", "miri", "build", "--offline", "--bin", "fv"], cwd=harness, env=env, stdout=subprocess.PIPE, stderr=subprocess.STDOUT, text=True)
+    if b.returncode != 0:
+        # `miri build` is not available in every toolchain; fall back to letting the first run build
+        pass
+    procs = []
+    t0 = time.time()
+    for suite, item in picks:
+        log = open(os.path.join(mdir, f"{suite}.{item}.log"), "w")
+        cmd = ["cargo", "+nightly", "miri", "run", "--offline", "--bin", "fv", "--", "C14", "--suite", suite, "--tier", "thorough", "--seed", str(seed),
+               "--only-item", str(item), "--out", os.path.join(mdir, f"{suite}.{item}")]
+        procs.append((suite, item, subprocess.Popen(cmd, cwd=harness, env=env, stdout=log, stderr=subprocess.STDOUT), log))
+        time.sleep(2 if len(procs) > 1 else 240 if b.returncode != 0 else 2)
+    viols, stats = [], {"clean": 0, "ub": 0, "other": [], "decodes": 0}
+    for suite, item, p, log in procs:
+        try:
+            rc = p.wait(timeout=max(60, 2400 - (time.time() - t0)))
+        except subprocess.TimeoutExpired:
+            p.kill()
+            rc = None
+        log.close()
+        txt = open(os.path.join(mdir, f"{suite}.{item}.log")).read()
+        if "Undefined Behavior" in txt:
+            frames = re.findall(r"(frost[-_][a-z0-9_-]+/src/[a-z0-9_/]+\.rs:\d+)", txt)
+            viols.append({"signature": f"C14/miri-undefined-behaviour/{suite}/{frames[0] if frames else 'no-frost-frame'}", "suite": suite, "item": item,
+                          "desc": "Miri reported undefined behaviour", "detail": {"report": txt[txt.find('Undefined Behavior') - 200:][:3000]}})
+            stats["ub"] += 1
+        elif rc == 0:
+            stats["clean"] += 1
+            try:
+                r = json.load(open(glob.glob(os.path.join(mdir, f"{suite}.{item}", "*.json"))[0]))
+                stats["decodes"] += r["counts"].get("binary_decodes", 0) + r["counts"].get("protocol_calls", 0)
+                for v in r["violations"]:
+                    viols.append(v)
+            except Exception:
+                pass
+        else:
+            stats["other"].append({"suite": suite, "item": item, "rc": rc, "tail": txt[-300:]})
+    stats["wall_s"] = round(time.time() - t0)
+    return viols, {"miri": stats}
 
 
 def _c18_min(m, tier):
@@ -177,7 +236,7 @@ PROPS = {
     "C14": {
         "level": "exploration", "eval_keys": ["binary_decodes", "json_decodes", "protocol_calls", "consume_calls"],
         "rule": "evaluations = decoder calls on structure-aware mutated encodings (binary and JSON, all 24 types) + protocol entry-point calls on hostile wire-representable peer material + mutate-decode-consume calls, each under catch_unwind with overflow checks and debug assertions on and a write-ahead record for dead-process attribution; distinct = (decoder) and (entry point x hostile-material class)",
-        "dead_is_violation": True,
+        "dead_is_violation": True, "supplementary": _c14_miri,
         "minimum": _all(_min_counts(binary_decodes=(300000, 10000000), protocol_calls=(15000, 100000)), _c14_min),
         "assumptions": COMMON_ASSUME + ["hostile values are laundered through their own wire encoding: only what a peer can deliver is used", "the caller's own secret state is honestly generated"],
     },
